@@ -77,13 +77,17 @@ install(globals(), 'C01', view, oracle,
                    'loop-head invariant; in every reachable log the invocations and applications of each process '
                    'alternate, each application carries exactly the update returned by the preceding invocation, at '
                    'the global time at which its interval ends (never early, never twice, never out of order); '
-                   'nothing stays pending after a forced run; quiet polls invoke nothing. Tied to engine.py by '
+                   'nothing stays pending after a forced run; quiet polls invoke nothing; the store of every reachable '
+                   'state is the initial state with exactly the logged applications replayed, and every emitted row '
+                   'at time T is the flagged part of the replay of the applications before it, all of which happened '
+                   'at times <= T and all later ones at times > T (observable form). Tied to engine.py by '
                    'event-trace correspondence on generated scenarios.',
         level_note='Trusted: Lean kernel + standard axioms; scheduler model faithful to Engine.run_for as far as '
                    'the trace correspondence sampled it; the float clock only on exact tick grids; parallel '
                    'execution is covered by C13; the hierarchy/topology side of applying an update by C06/C08.',
         technique='Lean 4 invariant proof over the scheduler loop + event-trace correspondence',
-        required=['exactly_once', 'applied_on_time', 'nothing_pending_after_run', 'quiet_invokes_nothing', 'accepted_applies_on_time'])
+        required=['exactly_once', 'applied_on_time', 'nothing_pending_after_run', 'quiet_invokes_nothing', 'accepted_applies_on_time',
+                  'state_is_replay_of_applied', 'observable_form'])
 
 
 # ------------------------------------------------------------------------------------------------
